@@ -189,11 +189,18 @@ class SRC:
             for arg in details['MessageArgSources']:
                 hexword_args.append(hex(self.hexData[int(arg[-1]) - 2]))
 
-            # message may have %1, etc. replace with {} and then fill
-            # those in with the hexData words
+            # message may have %1, %2, etc. where %N stands for the Nth
+            # entry of MessageArgSources; fill those in with the hexData
+            # words they refer to
             import re
-            message = re.sub(r'%[1-9]', "{}", message)
-            message = message.format(*hexword_args)
+
+            def fill(match):
+                index = int(match.group(1)) - 1
+                if index < len(hexword_args):
+                    return hexword_args[index]
+                return match.group(0)
+
+            message = re.sub(r'%([1-9])', fill, message)
 
         return message
 
